@@ -121,12 +121,14 @@ def load_makemap():
     return mod
 
 
-def scenario(chk, k, ngrains, omfloat, mods, tag):
+def scenario(chk, k, ngrains, omfloat, mods, tag, notrans=False):
     """run one simulated scenario through makemap(); returns (trace record, meta)"""
     transform, unitcell_mod, parameters, columnfile, grain, rgmod, makemap = mods
     rng = np.random.default_rng(common.seed() * 1000 + k)
     pars = c09_sim.make_pars(rng, k)
-    uc, grains, tab, worst = c09_sim.simulate(rng, transform, unitcell_mod, pars, ngrains)
+    # notrans: the starting grain file carries no #translation lines (first makemap run): every grain starts from the
+    # global t_x, t_y, t_z = 0 of the parameter file, so the true positions are kept within the 30 um start offset
+    uc, grains, tab, worst = c09_sim.simulate(rng, transform, unitcell_mod, pars, ngrains, tmax=(25.0 if notrans else 500.0))
     if len(tab) < 60 * ngrains or worst > 1e-7:
         raise common.MachineryError("simulation produced %d peaks (worst forward error %g) for scenario %d" % (len(tab), worst, k))
     d = os.path.join(common.scratch(), "c09_%s" % tag)
@@ -162,7 +164,7 @@ def scenario(chk, k, ngrains, omfloat, mods, tag):
     for (ubi, t) in grains:
         u0 = ubi @ c09_sim.small_rotation(rng, 2e-3).T
         t0 = t + rng.uniform(-30, 30, size=3)
-        start.append(grain.grain(u0, translation=t0))
+        start.append(grain.grain(u0, translation=(None if notrans else t0)))
     grain.write_grain_file(ubifile, start)
     opts = types.SimpleNamespace(parfile=parfile, fltfile=fltfile, ubifile=ubifile, newubifile=newubi, newfltfile=newflt,
                                  tthrange=None, latticesymmetry="triclinic", symmetry="triclinic", tol=0.05,
@@ -178,7 +180,7 @@ def scenario(chk, k, ngrains, omfloat, mods, tag):
         err = "%r\n%s" % (e, traceback.format_exc()[-800:])
     finally:
         rec.remove()
-    meta = {"scenario": k, "ngrains": ngrains, "omega_float": bool(omfloat), "seed": common.seed(), "npeaks": int(len(tab)),
+    meta = {"scenario": k, "ngrains": ngrains, "omega_float": bool(omfloat), "notrans": bool(notrans), "seed": common.seed(), "npeaks": int(len(tab)),
             "pars": {kk: pars[kk] for kk in ("o11", "o12", "o21", "o22", "omegasign", "tilt_x", "tilt_y", "tilt_z", "wedge", "chi", "distance")}}
     if err:
         chk.violation("makemap raised on simulated data: %s" % err.splitlines()[0], dict(meta, traceback=err))
@@ -218,7 +220,8 @@ def scenario(chk, k, ngrains, omfloat, mods, tag):
               "labels_ok": bool(labels_ok), "hkl_ok": bool(hkl_ok), "files_ok": bool(files_ok)}
     # initial translation ids: as read from the start file (values after the %g text round trip)
     st = grain.read_grain_file(ubifile)
-    record["gt0"] = [rec.tid(g.translation) for g in st]
+    glob_t = (p0["t_x"], p0["t_y"], p0["t_z"])
+    record["gt0"] = [rec.tid(g.translation if g.translation is not None else glob_t) for g in st]
     record["pt0"] = rec.tid((p0["t_x"], p0["t_y"], p0["t_z"]))
     record["ev"] = rec.ev
     meta["max_dubi"] = max(dubi) / 1e9
@@ -261,10 +264,11 @@ def run(tier, replay=None):
     if replay:
         case = json.load(open(replay))["case"]
         os.environ["VERIF_SEED"] = str(case.get("seed", 0))
-        plan = [(case["scenario"], case["ngrains"], case["omega_float"])]
+        plan = [(case["scenario"], case["ngrains"], case["omega_float"], case.get("notrans", False))]
     elif tier == "quick":
         plan = [(9, 2, False), (38, 3, True), (63, 2, False), (20, 1, True), (5, 4, False), (14, 2, True), (27, 5, False),
-                (33, 2, True), (42, 3, False), (51, 1, False), (60, 2, True), (7, 3, True), (48, 2, False), (31, 2, True)]
+                (33, 2, True), (42, 3, False), (51, 1, False), (60, 2, True), (7, 3, True), (48, 2, False), (31, 2, True),
+                (11, 3, False, True), (52, 2, True, True), (29, 4, False, True)]
     else:
         plan = []
         rng = np.random.default_rng(common.seed() + 9)
@@ -272,6 +276,8 @@ def run(tier, replay=None):
             ng = int(rng.integers(1, 6))
             plan.append((k, ng, False))
             plan.append((k, ng, True))
+            if k % 4 == 1:
+                plan.append((k, max(2, ng), bool(k % 8 == 1), True))
     for c, cover in (("RefineFlow_q", True), ("RefineFlow_t", False)) if tier == "thorough" else (("RefineFlow_q", True),):
         res = common.run_tlc("RefineFlow", os.path.join(common.SPECS, c + ".cfg"), workers=16, timeout=900, coverage=cover)
         chk.add_tlc(c, res, require_cover=(("AssignScore", "RPGof", "RPStore", "PGComputeGv", "PGUse") if cover else ()))
@@ -282,12 +288,14 @@ def run(tier, replay=None):
     if not res.violated:
         raise common.MachineryError("seeded protocol defect not detected by the model (vacuity)")
     recs, metas = [], {}
-    for i, (k, ng, omf) in enumerate(plan):
+    for i, pl in enumerate(plan):
+        k, ng, omf = pl[:3]
+        notrans = len(pl) > 3 and pl[3]
         tag = "s%d" % i
-        rec, meta = scenario(chk, k, ng, omf, mods, tag)
+        rec, meta = scenario(chk, k, ng, omf, mods, tag, notrans=notrans)
         metas[tag] = meta
         nontrivial = ng >= 2 or any(meta["pars"][x] != 0 for x in ("tilt_x", "tilt_y", "tilt_z", "wedge", "chi"))
-        chk.case((k, ng, omf), nontrivial=nontrivial)
+        chk.case((k, ng, omf, notrans), nontrivial=nontrivial)
         if rec is not None:
             recs.append(rec)
     verdicts = validate(chk, recs, "runs")
